@@ -737,3 +737,80 @@ func tableWellFormed(c *cenv, v cval) bool {
 	}
 	return true
 }
+
+// pureScan decides whether fn is a mathematical function of its (scalar) arguments: no calls, no stores outside
+// its own locals, and every load reads a local or a package-level table that no function of the program writes.
+// It justifies the `pure` keyword of a contract (the result is then identified with an uninterpreted function of the
+// arguments at every call site and inside contract expressions).
+func (w *World) pureScan(fn *ssa.Function) (bool, string) {
+	for _, p := range fn.Params {
+		if _, ok := p.Type().Underlying().(*types.Basic); !ok {
+			return false, "parameter " + p.Name() + " is not of a basic type"
+		}
+	}
+	var rootOK func(val ssa.Value, depth int) (bool, string)
+	rootOK = func(val ssa.Value, depth int) (bool, string) {
+		if depth > 8 {
+			return false, "address too deep"
+		}
+		switch x := val.(type) {
+		case *ssa.Alloc:
+			return true, ""
+		case *ssa.Global:
+			if v, ok := x.Object().(*types.Var); ok {
+				if ws := w.writersOf(v); len(ws) > 0 {
+					return false, "reads " + x.Name() + ", written by " + strings.Join(ws, ", ")
+				}
+				return true, ""
+			}
+			return false, "global without object"
+		case *ssa.FieldAddr:
+			return rootOK(x.X, depth+1)
+		case *ssa.IndexAddr:
+			return rootOK(x.X, depth+1)
+		case *ssa.Slice:
+			return rootOK(x.X, depth+1)
+		case *ssa.UnOp:
+			if x.Op == token.MUL {
+				return rootOK(x.X, depth+1)
+			}
+		case *ssa.Phi:
+			for _, ed := range x.Edges {
+				if ok, why := rootOK(ed, depth+1); !ok {
+					return false, why
+				}
+			}
+			return true, ""
+		}
+		return false, fmt.Sprintf("reads through %T", val)
+	}
+	for _, b := range fn.Blocks {
+		for _, in := range b.Instrs {
+			switch x := in.(type) {
+			case *ssa.Call:
+				if bi, ok := x.Call.Value.(*ssa.Builtin); ok && (bi.Name() == "len" || bi.Name() == "cap") {
+					continue
+				}
+				return false, "contains a call"
+			case *ssa.Go, *ssa.Defer, *ssa.Send, *ssa.MapUpdate, *ssa.Select, *ssa.Panic:
+				return false, fmt.Sprintf("contains %T", in)
+			case *ssa.Store:
+				if _, ok := x.Addr.(*ssa.Alloc); !ok {
+					if ok2, _ := rootOK(x.Addr, 0); !ok2 {
+						return false, "stores outside its locals"
+					}
+					if _, isG := x.Addr.(*ssa.Global); isG {
+						return false, "stores to a global"
+					}
+				}
+			case *ssa.UnOp:
+				if x.Op == token.MUL {
+					if ok, why := rootOK(x.X, 0); !ok {
+						return false, why
+					}
+				}
+			}
+		}
+	}
+	return true, ""
+}
